@@ -191,6 +191,8 @@ i.iter_post("step/invalid-request-is-reported-and-skipped",
             f"(({CMD} == 'UNREGISTER' or {CMD} == 'MAYBE_UNLINK') and {CNT0} > 0))))), "
             f"{others_unchanged(False)} and {NO_CLEANUP} and {REPORTED} == 1)", prop="C11")
 i.iter_post("step/one-request-per-iteration-and-never-leaves-on-error", "log_count('readline') == 1", prop="C11")
+# the tracker stops serving only at end of file (every writer gone): a blank or malformed request is not the end of the stream
+i.on_break("left-only-when-readline-returned-the-empty-bytes-of-end-of-file", f"log_count('readline') == 1 and {LINE} == b''", prop=["C11", "C12", "C13"])
 
 # ---- end-of-life sweep ------------------------------------------------------
 UR = f"{RT}:main._unlink_resources"
@@ -284,7 +286,7 @@ c.trusted_summary = True
 c.note("thin wrapper over multiprocessing.util.spawnv_passfds (fork+exec with the given descriptors kept)")
 
 RTC = "ResourceTracker"
-c = M.contract(f"{RTC}.ensure_running", props=["C12", "C20"])
+c = M.contract(f"{RTC}.ensure_running", props=["C12", "C20", "C13"])
 c.param("self", T.Ref(RTC))
 c.rely("the-recorded-descriptor-is-open", "implies(not is_none(self._fd), G.fd_open[the(self._fd)] and not is_none(self._pid))", "A-fds")
 c.ensures("ensure/alive-tracker-is-left-alone",
@@ -306,7 +308,7 @@ c.ensures("ensure/signals-blocked-around-the-spawn-and-unblocked-after",
           "ordered('call:spawnv_passfds', lambda *a: True, 'sigmask', lambda how, m: how is obj(signal.SIG_UNBLOCK)))", prop="C12")
 c.ensures("ensure/read-end-closed-in-the-parent-write-end-kept",
           "implies(log_count('pipe') == 1, not G.fd_open[log_arg('pipe', 0, 0)] and G.fd_open[log_arg('pipe', 0, 1)])", prop=["C12", "C20"])
-c.ensures("ensure/under-the-tracker-lock", "log_arg('acquire', 0, 0) is self._lock and log_pos('acquire', 0) == 0 and log_tags()[-1] == 'release'", prop="C12")
+c.ensures("ensure/under-the-tracker-lock", "log_arg('acquire', 0, 0) is self._lock and log_pos('acquire', 0) == 0 and log_tags()[-1] == 'release'", prop=["C12", "C13"])
 NEWFD = "forall(Int, lambda fd: implies(G.fd_open[fd] and not old(G.fd_open[fd]), not is_none(self._fd) and fd == the(self._fd)))"
 c.ensures("ensure/only-the-new-write-end-stays-open", NEWFD, prop="C20")
 c.ensures("ensure/closes-nothing-but-a-dead-trackers-descriptor",
